@@ -557,6 +557,34 @@ def mentions(t, needle):
     return False
 
 
+def subterms(t):
+    """every sub-term of t, t included (pre-order)"""
+    yield t
+    k = t[0]
+    kids = ()
+    if k == "call":
+        kids = t[2]
+    elif k == "callind":
+        kids = (t[1],) + tuple(t[2])
+    elif k in ("cast", "ref", "deref", "discr", "repeat", "field", "captured"):
+        kids = (t[1],)
+    elif k == "bin":
+        kids = (t[2], t[3])
+    elif k == "un":
+        kids = (t[2],)
+    elif k == "agg":
+        kids = t[2]
+    elif k == "phi":
+        kids = t[1]
+    for c in kids:
+        if isinstance(c, tuple) and c:
+            yield from subterms(c)
+
+
+def contains(t, sub):
+    return any(x == sub for x in subterms(t))
+
+
 def closures_in_term(t, out=None):
     """ids of closure bodies constructed inside a term"""
     if out is None:
